@@ -27,6 +27,9 @@ template <typename T> const char *ftype_name() {
 }
 constexpr uint64_t BADVAL = 0xBADBADBAD;
 
+// an exception type of the USER that derives from the library's await_canceled_exception (e.g. a cancellation reason with a payload): when a
+// body or a resolver delivers it, the reader must get that object - not the payload-free "no value" state
+struct f_cancel_reason : cocls::await_canceled_exception { int code; explicit f_cancel_reason(int c) : code(c) {} };
 template <typename T> outcome read_future(cocls::future<T> &f, int *targets, int ntargets);
 // the same through the const overload of value() (a separate implementation in the library): must tell the same story
 template <typename T> outcome read_future_const(const cocls::future<T> &f, int *targets, int ntargets) {
@@ -40,6 +43,7 @@ template <typename T> outcome read_future_const(const cocls::future<T> &f, int *
         } else if constexpr (std::is_same_v<T, int>) { o.val = (uint64_t)f.value(); o.state = PS_VALUE; }
         else { const auto &v = f.value(); o.state = PS_VALUE; o.val = v.ok() ? v.id : BADVAL; }
     } catch (const vf::test_exc &e) { o.state = PS_EXC; o.code = e.code; }
+    catch (const f_cancel_reason &e) { o.state = PS_EXC; o.code = e.code; }
     catch (const cocls::await_canceled_exception &) { o.state = PS_CANCELED; }
     catch (const cocls::value_not_ready_exception &) { o.state = PS_PENDING; }
     catch (...) { o.state = PS_EXC; o.code = -99; }
@@ -57,6 +61,7 @@ template <typename T> outcome read_future(cocls::future<T> &f, int *targets, int
         } else if constexpr (std::is_same_v<T, int>) { o.val = (uint64_t)f.value(); o.state = PS_VALUE; }
         else { auto &v = f.value(); o.state = PS_VALUE; o.val = v.ok() ? v.id : BADVAL; }
     } catch (const vf::test_exc &e) { o.state = PS_EXC; o.code = e.code; }
+    catch (const f_cancel_reason &e) { o.state = PS_EXC; o.code = e.code; }
     catch (const cocls::await_canceled_exception &) { o.state = PS_CANCELED; }
     catch (const cocls::value_not_ready_exception &) { o.state = PS_PENDING; }
     catch (...) { o.state = PS_EXC; o.code = -99; }
@@ -789,8 +794,9 @@ inline void future_many_waiters(const vf::opts &o, vf::report &R, uint64_t cases
     for (uint64_t cn = 0; cn < cases && R.nviol() < 5; cn++) {
         vf::rng r(master.next());
         vf::set_crash_ctx(R.prop.c_str(), "future_many_waiters", o.seed, cn);
-        int n = counts[r.below(12)], mode = (int)r.below(4), how = (int)r.below(2);
-        static const char *mn[] = {"promise called from ordinary code", "coroutine co_awaits the promise's suspend point", "coroutine discards the promise's suspend point", "completion of an async coroutine started into the future"};
+        int n = counts[r.below(12)], mode = (int)r.below(5), how = (int)r.below(2);
+        static const char *mn[] = {"promise called from ordinary code", "coroutine co_awaits the promise's suspend point", "coroutine discards the promise's suspend point", "completion of an async coroutine started into the future",
+                                   "two futures resolved, their suspend points gathered in ONE suspend point (merge or assignment onto the non-empty one), then flushed"};
         std::string desc = std::to_string(n) + " coroutine waiters, resolver: " + mn[mode] + (how == 0 ? ", value" : mode == 3 ? ", exception" : ", drop");
         std::string err;
         auto rel = std::make_unique<std::array<int, 16>>(); auto val = std::make_unique<std::array<int, 16>>(); rel->fill(0); val->fill(-9);
@@ -803,7 +809,21 @@ inline void future_many_waiters(const vf::opts &o, vf::report &R, uint64_t cases
             else { f.reset(new cocls::future<int>()); p.emplace(f->get_promise()); }
             for (int i = 0; i < n; i++) fm_waiter(*f, (*rel)[(size_t)i], (*val)[(size_t)i]).detach();
             for (int i = 0; i < n && err.empty(); i++) if ((*rel)[(size_t)i] != 0) err = "waiter released before the resolution";
-            if (mode == 0) { if (how == 0) (*p)(42); else (*p)(cocls::drop); }
+            // mode 4: a second future with its own waiters; the resolver keeps both returned suspend points in one variable
+            cocls::future<int> f2; cocls::promise<int> p2 = f2.get_promise(); int n2 = 1 + (int)(cn % 5); std::array<int, 8> rel2{}, val2{};
+            if (mode == 4) {
+                for (int i = 0; i < n2; i++) fm_waiter(f2, rel2[(size_t)i], val2[(size_t)i]).detach();
+                cocls::suspend_point<void> sp;
+                if (how == 0) { sp = (*p)(42); sp = p2(42); }       // assignment onto a suspend point that already carries ready coroutines: they stay
+                else { sp << (*p)(42); sp << p2(42); }
+                bool none_yet = true; for (int i = 0; i < n; i++) none_yet = none_yet && (*rel)[(size_t)i] == 0;
+                (void)none_yet; // ordinary code: whether they ran during the merge is not fixed; after the flush all must have
+                sp.clear();
+                for (int i = 0; i < n2 && err.empty(); i++) if (rel2[(size_t)i] != 1 || val2[(size_t)i] != 42) err = "waiter #" + std::to_string(i) + " of the SECOND gathered future released " + std::to_string(rel2[(size_t)i]) + " times";
+                how = 0;
+            } else p2(0);
+            if (mode == 4) {}
+            else if (mode == 0) { if (how == 0) (*p)(42); else (*p)(cocls::drop); }
             else if (mode == 1 || mode == 2) { fm_coro_resolver(*p, how, mode == 1, continued).detach(); if (continued != 1 && err.empty()) err = "resolving coroutine continued " + std::to_string(continued) + " times"; }
             else gp();
             int want = mode == 3 ? (how == 0 ? 42 : -2) : (how == 0 ? 42 : -1);
